@@ -106,9 +106,10 @@ def validate_sessions(run, sessions, *, symptom_of=None, shards=None, interestin
         if v.reached != v.length:
             ev = s['log'][v.reached] if v.reached < len(s['log']) else {}
             nfail += 1
-            run.violation({'text': s.get('text'), 'event_index': v.reached + 1, 'event': ev, 'tags': s.get('tags')},
+            run.violation({'text': s.get('text'), 'event_index': v.reached + 1, 'event': ev, 'tags': s.get('tags'), 'seed': s.get('seed')},
                           f"the specification's row machine does not allow event {v.reached + 1} ({describe_event(ev)[:200]}) "
-                          f"of this recorded session", classes=classes, symptom='blocked')
+                          f"of this recorded session", classes=classes, symptom='blocked',
+                          case_key=(s['case_id'] + '|blocked') if s.get('case_id') else None)
             continue
         seen = set()
         for pos, clause in v.fails:
@@ -126,7 +127,7 @@ def validate_sessions(run, sessions, *, symptom_of=None, shards=None, interestin
             run.violation({'text': s.get('text'), 'event_index': pos, 'clause': clause, 'event': {k: v2 for k, v2 in ev.items() if k != 'snap'},
                            'tags': s.get('tags'), 'seed': s.get('seed')},
                           f"clause {clause} fails at event {pos}: {describe_event(ev)[:400]} | document: {s.get('text', '')[:300]!r}",
-                          classes=cl, symptom=sym)
+                          classes=cl, symptom=sym, case_key=(f"{s['case_id']}|{sym}|{pos}") if s.get('case_id') else None)
     if outside:
         for c, n in sorted(outside.items()):
             print(f'NOTE-OUTSIDE-PROPERTY: property={run.pid} clause={c} failed {n} time(s); it belongs to another property (or to behaviour '
